@@ -301,7 +301,15 @@ C07_ClaimsOnlyByOwner(w1, e, w2) ==
            => e.ok /\ (IsHookTx(e, "bsei", "unbond") \/ IsHookTx(e, "stsei", "unbond")) /\ e.tx.sender = u /\ i = w1.batch.id
 \* the WithdrawableUnbonded query reports the claims on batches older than the unbonding period at their current rates
 C07_QueriesFaithful(w0, o) == \A u \in Accts : o.withdrawable[u] = QueryWithdrawable(w0, u)
-C07_Step(w1, e, w2) == C07_UnbondRecorded(w1, e, w2) /\ C07_ClaimsOnlyByOwner(w1, e, w2)
+\* the migration of legacy wait-list entries moves claims, it never creates one: per account and batch, what is recorded in
+\* the new list plus what is still in the legacy list does not grow (the code's overwrite of an existing entry may lose, not win)
+LegacySum(w0, u, i) == LET S == {j \in 1..Len(w0.legacy) : w0.legacy[j].u = u /\ w0.legacy[j].i = i} IN SumFn([j \in S |-> w0.legacy[j].amt], S)
+C07_MigrationMovesOnly(w1, e, w2) ==
+  Committed(e, "hub", "migrate_unbond_wait_list") =>
+    \A u \in Accts, i \in 1..MaxBatch :
+      /\ w2.wait[u][i].b + LegacySum(w2, u, i) <= w1.wait[u][i].b + LegacySum(w1, u, i)
+      /\ w2.wait[u][i].st = w1.wait[u][i].st
+C07_Step(w1, e, w2) == C07_UnbondRecorded(w1, e, w2) /\ C07_ClaimsOnlyByOwner(w1, e, w2) /\ C07_MigrationMovesOnly(w1, e, w2)
 
 -----------------------------------------------------------------------------
 \* C08 - time lock; batch lifecycle only moves forward
